@@ -452,13 +452,16 @@ def d3(ctx):
     f = prog.one('PyTreeSpec::SetDictInsertionOrdered')
     ins = calls_in(f.body, {'insert', 'emplace'})
     ers = calls_in(f.body, {'erase'})
+    # parameters by position: (mode, namespace) for the setter, (namespace, inherit) for the query
+    fps = [p_[0] for p_ in f.params]
+    ctx.require(len(fps) == 2, 'SetDictInsertionOrdered: %d parameters' % len(fps))
     ok = len(ins) == 1 and len(ers) == 1 and \
-        member_path(ins[0].call_args()[0]) == 'registry_namespace' and \
-        member_path(ers[0].call_args()[0]) == 'registry_namespace'
+        member_path(ins[0].call_args()[0]) == fps[1] and \
+        member_path(ers[0].call_args()[0]) == fps[1]
     if ok:
         parent = enclosing_map(f.body)
         i_if = [a for a in ancestors(ins[0], parent) if a.kind == 'IfStmt']
-        ok = bool(i_if) and member_path(i_if[0].kids[0]) == 'mode' and \
+        ok = bool(i_if) and member_path(i_if[0].kids[0]) == fps[0] and \
             any(x is ins[0] for x in i_if[0].kids[1].walk()) and \
             len(i_if[0].kids) > 2 and any(x is ers[0] for x in i_if[0].kids[2].walk())
     ctx.check('SetDictInsertionOrdered/shape', ok,
@@ -478,8 +481,9 @@ def d3(ctx):
                 return 'find' in t and what in t and ('!' in t or '!=' in t)
             if r.kind == 'BinaryOperator' and r.op == '&&':
                 a, b = r.kids
-                ok = is_find(l, 'registry_namespace') and member_path(a) == 'inherit_global_namespace' \
-                    and is_find(b, '""') and 'registry_namespace' not in b.text(8)
+                gps = [p_[0] for p_ in g.params]
+                ok = len(gps) == 2 and is_find(l, gps[0]) and member_path(a) == gps[1] \
+                    and is_find(b, '""') and gps[0] not in b.text(8)
             why = e.text(6)
     ctx.check('IsDictInsertionOrdered/shape', ok,
               'IsDictInsertionOrdered(ns, inherit) == contains(ns) || (inherit && contains(""))',
